@@ -129,6 +129,8 @@ type Exec struct {
 	pendingBoxes []boxedArg
 	cellFns  map[string]Val
 	heapElemType map[string]types.Type
+	dual     bool
+	curCall  ssa.Instruction
 }
 
 func newExec(w *World, unit string) *Exec {
@@ -183,6 +185,15 @@ func (e *Exec) hget(st *State, name string) string {
 func (e *Exec) typeAxiom(name, term string, global bool) {
 	t, ok := e.heapElemType[name]
 	if !ok {
+		return
+	}
+	if name == "E_Int" {
+		ax := fmt.Sprintf("(forall ((r Int) (i Int)) (! (and (<= 0 (select (select %s r) i)) (<= (select (select %s r) i) 255)) :pattern ((select (select %s r) i))))", term, term, term)
+		if global {
+			e.sc.axiom("type:"+term, ax)
+		} else {
+			e.sc.assume("true", ax)
+		}
 		return
 	}
 	f := e.sc.rangeFact("(select "+term+" r)", t)
@@ -272,7 +283,21 @@ func (e *Exec) embFun(st types.Type, i int) string {
 
 func (e *Exec) elemHeap(elem types.Type) string {
 	srt := e.sc.sortOf(elem)
-	return e.heapMap("E_"+sortTag(srt), "(Array Int (Array Int "+srt+"))")
+	tag := sortTag(srt)
+	// byte arrays live in their own heap (Go's type system keeps []byte apart from other integer
+	// slices), which gives every element read the 0..255 range for free
+	if b, ok := types.Unalias(elem).Underlying().(*types.Basic); ok && b.Kind() == types.Uint8 {
+		name := e.heapMap("E_Int", "(Array Int (Array Int Int))")
+		if e.heapElemType == nil {
+			e.heapElemType = map[string]types.Type{}
+		}
+		e.heapElemType[name] = types.NewSlice(types.Typ[types.Uint8])
+		return name
+	}
+	if srt == "Int" {
+		tag = "IntW"
+	}
+	return e.heapMap("E_"+tag, "(Array Int (Array Int "+srt+"))")
 }
 
 func (e *Exec) boxHeap(t types.Type) string {
@@ -1024,7 +1049,7 @@ func (e *Exec) enterLoop(fr *Frame, st *State, hdr *ssa.BasicBlock, ord int, bod
 		env.rng = li
 	}
 	for _, c := range invs {
-		e.sc.assume(ns.reach, e.specBool(env, c))
+		e.sc.assume(ns.reach, e.specBoolA(env, c))
 	}
 	for _, ai := range e.autoInvs(fr, ns, hdr, ord) {
 		e.sc.assume(ns.reach, ai.f)
